@@ -215,6 +215,19 @@ def run(tier):
         deferred = e
         chk.notes.append("abstract machine not completed: %s" % str(e)[:300])
     pc_pairs(chk, tier, full=deferred is not None)
+    # dispatch: all of the above is about the assembly routines; that Seal / Open reached through crypto/cipher are
+    # served by them (and not by the standard library's table-driven generic mode) is decided on recorded
+    # constructions: the AEAD built over an accelerated cipher is the accelerated one, and works
+    from ..sm2gen import Gen, rb
+    g = Gen(chk.rng)
+    key = rb(chk.rng, 16)
+    for (ns, ts) in ((12, 16), (12, 12), (12, 14), (16, 16), (1, 16), (13, 13), (128, 16)):
+        k = g.scenario("dispatch")
+        g.add(k, "gcm.aead", h="a", key=key, noncesize=ns, tagsize=ts, path="asm")
+        g.add(k, "gcm.seal", h="a", nonce=rb(chk.rng, ns), aad=rb(chk.rng, 5), pt=rb(chk.rng, 21), prefix=[], spare=-1,
+              alias="none", repeat=False, j="v")
+    chk.exec_and_validate("T_GCM", g.cmds, lambda b: "dispatch." + b["why"].split(": ")[1].replace(" ", "_"), accel=True,
+                          pure_budget=0, tag="disp")
     if deferred is not None and not chk.bad:
         raise deferred
     chk.events = max(chk.events, chk.extra.get("asm_paths", 0))
